@@ -123,6 +123,12 @@ def op_adjust(ctx, n=4, orig=4, minb=2, maxb=4, adaptive=True, diss=False):
     ctx.prove("adjust:change flag reports a grid change", bool(change) == (pbm.bins != oldn or newIdx is not None or bool(change)))
     if newIdx is not None:
         ctx.prove("adjust:newIndices is the old class count (classes were appended)", newIdx == oldn and pbm.bins == oldn + int(orig / 4))
+    if bool(psd[n - 1] > 1):
+        # documented: classes are still appended when the last class fills, adaptive binning or not (without it only the re-mesh is off)
+        ctx.prove("adjust:a filled last class gets classes appended (adaptive or not)", bool(change) and (newIdx is not None or (adaptive and pbm.bins != oldn + int(orig / 4))))
+        if not adaptive:
+            ctx.prove("adjust:fixed class width: the grid is extended by originalBins/4 classes of the same width",
+                      newIdx == oldn and pbm.bins == oldn + int(orig / 4) and bool(ctx.eq(pbm.max, b0 + (n + int(orig / 4)) * w)))
     if not change:
         ctx.prove("adjust:no change leaves the grid alone", ctx.all([pbm.bins == oldn, ctx.eq(pbm.min, b0), ctx.eq(pbm.max, b0 + n * w)]))
 
